@@ -8,6 +8,7 @@ for p in $props; do
   s=$(date +%s)
   out=$(./check "$p" --tier "$tier" 2>&1); r=$?
   e=$(date +%s)
+  [ "$tier" = thorough ] && [ $r -eq 0 ] && mkdir -p evidence_thorough && cp "evidence/$p.json" "evidence_thorough/$p.json"
   echo "$p exit=$r $((e-s))s $(echo "$out" | grep -E '^(OK|VIOLATION|KNOWN-FINDING|HARNESS)' | head -3 | tr '\n' ' ')"
   [ $r -ne 0 ] && rc=1
 done
